@@ -5,7 +5,16 @@
    (2*hh*hh = 1), inverses of units, decidable equality ([TomoRing], Base/QI2.v);
    instances: Q(sqrt 2)(i) (Base/QI2.v, executable) and the complex numbers over
    Coq's reals (Base/QI2R.v).  [req] is the list of measurement settings in the
-   order Python's list(set(...)) happened to produce. *)
+   order Python's list(set(...)) happened to produce.
+
+   Last part (PHOTONIC LEVEL, DESIGN T2; Proofs/DualRail*.v): for ANY base circuit that acts on
+   the dual-rail basis as Kc * V with zero leakage (C12_acts_as_dual_rail_def: every heralded-only
+   conversion, every composition of C13 gates by C12_dual_rail_step) the measurement circuit of a
+   setting acts as Kc * ((x)_i MEASUREMENT_MAPPING[s_i]) . V with zero leakage
+   (C15_photonic_setting_circuit); its dual-rail outcome frequencies are |Kc|^2 times the Born
+   probabilities [born] of psi = V|b> that the noiseless model [ideal_data] of the first part uses
+   (C15_photonic_frequencies_are_born); and process() on these frequencies returns |psi><psi|
+   whenever |Kc|^2 is invertible (C15_photonic_state_tomography). *)
 From Coq Require Import ZArith List Bool Arith Lia Permutation Reals QArith Qcanon.
 From LW Require Import Base.Sx Base.Num Base.Sums Base.Mat Base.QI2 Base.QI2R Model.Tomo Proofs.TomoStateP.
 Import ListNotations.
@@ -105,3 +114,94 @@ Example C15_example_computed :
   | Err _ => false
   end = true.
 Proof. vm_compute. reflexivity. Qed.
+
+(* ====================================================================== *)
+(* PHOTONIC LEVEL (DESIGN "### C15", T2; Proofs/DualRail*.v)               *)
+(* ====================================================================== *)
+From LW Require Import Model.State Model.Circuit Model.Fock Model.Gates Proofs.PermP Proofs.DisplayP Proofs.WiringMat
+     Proofs.DualRailDefs Proofs.DualRailP Proofs.DualRailTomo Proofs.DualRailMain.
+
+(* [acts_as_dual_rail o e c nq Kc V] (Properties/C12.v, C12_acts_as_dual_rail_def): with its heralds
+   inserted and vacuum on its loss modes the circuit c maps dr b to dr b' with amplitude Kc * V[b',b]
+   and to every other occupation of its 2*nq visible modes with amplitude 0.  Every circuit the
+   qiskit converter builds in heralded-only mode is of this kind (C12_convert_heralded_correct), so
+   is every circuit built from the gates of C13 with C12_dual_rail_step.
+   [two_mode o e sub U]: sub is a well-formed 2-mode circuit without heralds that compiles to U (the
+   basis-change circuits H, S;Z;H, I of MEASUREMENT_MAPPING, C15_settings_spec);
+   [add_from o 0 subs base]: base.add(subs[i], 2*i) for i = 0, 1, ... (StateTomography._create_circuit);
+   [tprod o Us z x] = prod_i Us[i][z_i, x_i]: the entry <z| U_0 (x) ... (x) U_{n-1} |x>. *)
+Theorem C15_photonic_setting_circuit :
+  forall (K : Type) (o : ops K), StarRing o -> ZMorph o ->
+  forall (ninv : nat -> K * K), (forall k, 0 < k -> kmul (co o) (kofnat (co o) k) (ninv k) = k1 (co o)) ->
+  forall (e : env (K:=K)) (base : circ (K:=K)) (nq : nat) (Kc : K * K) (V : qmat (K * K))
+         (subs : list (circ (K:=K))) (Us : list (@mat (K * K))),
+    acts_as_dual_rail o e base nq Kc V -> Forall2 (two_mode o e) subs Us -> length subs = nq ->
+    exists c', add_from o 0 subs base = Ok c' /\
+      acts_as_dual_rail o e c' nq Kc
+        (fun z b => suml (co o) (bits nq) (fun x => kmul (co o) (tprod o Us z x) (V x b))).
+Proof. exact (fun K o SR ZM ninv Hn => @dual_rail_setting K o SR ZM ninv Hn). Qed.
+Print Assumptions C15_photonic_setting_circuit.
+
+From LW Require Import Proofs.DualRailBorn.
+
+(* the frequencies.  Scalars: complex pairs over o with a TomoRing structure (ii, hh);
+   [Tomo.bits n z] = the bits of the outcome index z (qubit 0 most significant), [dual_rail n z]
+   its dual-rail state;  psi k = V[bits k, b] is the state the base circuit prepares from dr b;
+   [phot_amp ... s z] = Kc * sum_x (prod_i meas_mat(s_i)[z_i, x_i]) V[x, b] is the amplitude that
+   C15_photonic_setting_circuit gives to outcome z of the circuit of setting s (Us = map meas_mat s);
+   [phot_freq] = amp * conj amp;  [phot_data s] = {dual_rail z : phot_freq s z}, the callback's result *)
+Theorem C15_photonic_data_def :
+  forall (K : Type) (o : ops K) (ii hh : K * K) (n : nat) (Kc : K * K) (V : qmat (K * K)) (b : list bool) (s : mstr) (z k : nat),
+    psi n V b k = V (Tomo.bits n k) b /\
+    phot_amp o ii hh n Kc V b s z =
+      kmul (cplx o) Kc (suml (cplx o) (Gates.bits n)
+        (fun x => kmul (cplx o) (tprod o (map (meas_mat (cplx o) ii hh) s) (Tomo.bits n z) x) (V x b))) /\
+    phot_freq o ii hh n Kc V b s z =
+      kmul (cplx o) (phot_amp o ii hh n Kc V b s z) (kconj (cplx o) (phot_amp o ii hh n Kc V b s z)) /\
+    phot_data o ii hh n Kc V b s = map (fun z => (dual_rail n z, phot_freq o ii hh n Kc V b s z)) (seq 0 (2 ^ n)).
+Proof. exact (fun K o ii hh n Kc V b s z k => conj eq_refl (conj eq_refl (conj eq_refl eq_refl))). Qed.
+Print Assumptions C15_photonic_data_def.
+
+Theorem C15_photonic_frequencies_are_born :
+  forall (K : Type) (o : ops K) (ii hh : K * K), TomoRing (cplx o) ii hh ->
+  forall (n : nat) (Kc : K * K) (V : qmat (K * K)) (b : list bool) (s : mstr) (z : nat),
+    length s = n -> z < 2 ^ n ->
+    phot_freq o ii hh n Kc V b s z =
+    kmul (cplx o) (kmul (cplx o) Kc (kconj (cplx o) Kc))
+         (born (cplx o) (2 ^ n) (kfold (cplx o) (meas_mat (cplx o) ii hh) s) (density_from_state (cplx o) (psi n V b)) z).
+Proof. exact (fun K o ii hh TR => @phot_born K o ii hh TR). Qed.
+Print Assumptions C15_photonic_frequencies_are_born.
+
+(* state tomography of any such circuit: with |Kc|^2 invertible (w its inverse) and psi normalised,
+   StateTomography.process fed with the photonic frequencies of the requested settings returns
+   |psi><psi|, psi = V|b> *)
+Theorem C15_photonic_state_tomography :
+  forall (K : Type) (o : ops K) (ii hh : K * K), TomoRing (cplx o) ii hh ->
+  forall (n : nat) (Kc : K * K) (V : qmat (K * K)) (b : list bool) (req : list mstr) (w : K * K),
+    1 <= n -> Permutation req (req_canonical n false) ->
+    kmul (cplx o) (kmul (cplx o) Kc (kconj (cplx o) Kc)) w = k1 (cplx o) ->
+    sumn (cplx o) (2 ^ n) (fun k => kmul (cplx o) (psi n V b k) (kconj (cplx o) (psi n V b k))) = k1 (cplx o) ->
+    exists R, st_process (cplx o) ii n req (map (phot_data o ii hh n Kc V b) req) = Ok R /\
+              meq (2 ^ n) R (density_from_state (cplx o) (psi n V b)).
+Proof. exact (fun K o ii hh TR => @phot_tomography K o ii hh TR). Qed.
+Print Assumptions C15_photonic_state_tomography.
+
+(* non-vacuity in Q(sqrt 2)(i): one qubit, V = (H as the operator on bit lists), Kc = 1/sqrt 2
+   (|Kc|^2 = 1/2, w = 2), input b = |0>: psi = (|0> + |1>)/sqrt 2; the hypotheses hold and the
+   reconstruction from the photonic frequencies is recomputed *)
+Definition ex_photV : qmat ((Qc * Qc) * (Qc * Qc)) :=
+  fun b' b => if andb (hd false b') (hd false b) then kopp qi2ops qi2_h else qi2_h.
+Example C15_photonic_example :
+  let w := kadd qi2ops (k1 qi2ops) (k1 qi2ops) in
+  kmul qi2ops (kmul qi2ops qi2_h (kconj qi2ops qi2_h)) w = k1 qi2ops /\
+  sumn qi2ops (2 ^ 1) (fun k => kmul qi2ops (psi 1 ex_photV [false] k) (kconj qi2ops (psi 1 ex_photV [false] k))) = k1 qi2ops /\
+  match st_process qi2ops qi2_i 1 (req_canonical 1 false)
+          (map (phot_data qr2ops qi2_i qi2_h 1 qi2_h ex_photV [false]) (req_canonical 1 false)) with
+  | Ok M => forallb (fun i => forallb (fun j =>
+               keqb qi2ops (M i j) (density_from_state qi2ops (psi 1 ex_photV [false]) i j)) (seq 0 2)) (seq 0 2)
+  | Err _ => false
+  end = true.
+Proof.
+  cbv zeta. split; [apply (proj1 (ui_eqb (o:=qi2ops) _ _)); vm_compute; reflexivity|].
+  split; [apply (proj1 (ui_eqb (o:=qi2ops) _ _)); vm_compute; reflexivity|]. vm_compute. reflexivity.
+Qed.
